@@ -25,6 +25,8 @@ type scaleC struct {
 	dir      string
 	launches int
 	stops    int
+	g        [][2]string // the project as loaded by the last scinit (for project updates)
+	pw, po   *lProc
 }
 
 func init() {
@@ -150,6 +152,7 @@ func (c *scaleC) Exec(op string) string {
 		if !ok {
 			return "bad-op"
 		}
+		c.g, c.pw, c.po = g, pw, po
 		c.h = &supH{}
 		c.h.reset("coarse", false)
 		if c.dir == "" {
@@ -195,6 +198,50 @@ func (c *scaleC) Exec(op string) string {
 		}
 		verif.S.TakeLog()
 		return c.dump("ok")
+	case len(w) == 2 && w[0] == "scupd":
+		// the project file is edited (replica count of `w`) and the running project updated from it
+		if c.h == nil || c.h.dead || c.pw == nil {
+			return "DEAD"
+		}
+		n, err := strconv.Atoi(w[1])
+		if err != nil || n < 1 {
+			return "bad-op"
+		}
+		np := *c.pw
+		np.replicas = n
+		yml, ok := ProjectYAML(c.g, []*lProc{&np, c.po})
+		if !ok {
+			return "bad-op"
+		}
+		f := filepath.Join(c.dir, "pc-upd.yaml")
+		_ = os.WriteFile(f, yml, 0o644)
+		prj, lerr := loader.Load(&loader.LoaderOptions{FileNames: []string{f}, IsInternalLoader: true})
+		if lerr != nil {
+			return "load-error"
+		}
+		r := c.h.r
+		ret := "?"
+		if err := verif.S.Go("api", fmt.Sprintf("u%d", len(c.h.stopLog)+c.launches), func() {
+			defer func() {
+				if e := recover(); e != nil {
+					ret = "panic"
+				}
+			}()
+			if _, e := r.UpdateProject(prj); e == nil {
+				ret = "ok"
+			} else {
+				ret = "other"
+			}
+		}); err != nil {
+			return "DIVERGED"
+		}
+		c.launches++
+		if q := c.quiesce(); q != "" {
+			return q
+		}
+		verif.S.TakeLog()
+		c.pw = &np
+		return c.dump(ret)
 	case len(w) == 3 && w[0] == "scale":
 		if c.h == nil || c.h.dead {
 			return "DEAD"
@@ -286,6 +333,13 @@ func (c *scaleC) Gen(r *rand.Rand, tier string, emit func(string)) {
 				target = "nosuch"
 			default:
 				target = "w-99"
+			}
+			if r.Intn(5) == 0 {
+				// the project file is edited and the project updated from it
+				nn := 1 + r.Intn(4)
+				emit(fmt.Sprintf("scupd %d", nn))
+				cur = nn
+				continue
 			}
 			if r.Intn(3) == 0 {
 				// a replica finishes by itself before the scale request
